@@ -194,6 +194,11 @@ class CompressedFrame(Frame):
             raise errors.ProtocolError(
                 "reserved bits set"
             )
+        if self.rsv1 and self.is_control:
+            # Control frames are never compressed (RFC 7692 section 6.1)
+            raise errors.ProtocolError(
+                "reserved bits set"
+            )
 
 
 if __name__ == "__main__":  # pragma: no cover
